@@ -246,6 +246,14 @@ def invariants(db, bases=None, shipped=False):
         except Exception as e:
             probs.append(("I4:GetDefaultCategory-raised:%s" % type(e).__name__, {"unit": u, "error": str(e)[:160]}))
             continue
+        # (a unit registered without a default category of its own - None, or a blank one - is used through the category named after
+        # its quantity type, when there is one)
+        try:
+            blank = not db.unit_to_unit_info[u].default_category
+        except Exception:
+            blank = False
+        if blank and qt in cats_of.get(qt, ()) and not (dc is not None and dc in cats_of.get(qt, ())):
+            dc = qt
         if dc is not None and dc in cats_of.get(qt, ()):
             try:
                 s = Scalar(1.0, u)
@@ -517,6 +525,12 @@ def clash_histories():
                   ("AddCategory", ("depth2",), {"from_category": "depth"}), ("Probe", ("depth", "cm"), {}), ("AddUnit:" + how, ("length", "centimetres again", "cm", "%f*100.0", "%f/100.0"), {}),
                   ("AddUnit", ("length", "kilometres", "km", "%f/1000.0", "%f*1000.0"), {"default_category": "depth"})]  # fmt: skip
             out.append(h)
+    # a unit registered with an *empty* default category (a form field left blank) has no default category of its own: it is
+    # used through the category named after its type like any other unit
+    for dc in ("", None):
+        out.append([("AddUnitBase", ("length", "metres", "m"), {}), ("AddCategory", ("length", "length"), {}), ("AddUnit", ("length", "feet", "ft", "%f/0.3048", "%f*0.3048"), {"default_category": dc}), ("Probe", ("length", "ft"), {}),
+                    ("AddCategory", ("depth", "length"), {"default_unit": "ft"}), ("AddUnit", ("length", "centimetres", "cm", "%f*100.0", "%f/100.0"), {"default_category": dc})])
+        out.append([("AddUnitBase", ("length", "metres", "m"), {}), ("AddUnit", ("length", "feet", "ft", "%f/0.3048", "%f*0.3048"), {"default_category": dc}), ("AddCategory", ("length", "length"), {}), ("Probe", ("length", "ft"), {})])
     return out
 
 
